@@ -400,3 +400,102 @@ package controller
 //@   invariant subOf(untaintedNodes, allNodes, #i) && subOf(taintedNodes, allNodes, #i) && subOf(forceTaintedNodes, allNodes, #i) && subOf(cordonedNodes, allNodes, #i)
 //@   invariant !dry(c, nodeGroup) ==> (forall j :: 0 <= j && j < len(untaintedNodes) ==> clsU(untaintedNodes[j])) && (forall j :: 0 <= j && j < len(taintedNodes) ==> clsT(taintedNodes[j])) && (forall j :: 0 <= j && j < len(forceTaintedNodes) ==> clsF(forceTaintedNodes[j])) && (forall j :: 0 <= j && j < len(cordonedNodes) ==> unsched(cordonedNodes[j]))
 //@   invariant !dry(c, nodeGroup) ==> (forall i :: 0 <= i && i < #i && clsU(allNodes[i]) ==> (exists j :: 0 <= j && j < len(untaintedNodes) && untaintedNodes[j] == allNodes[i]))
+
+// ---------------------------------------------------------------- quantities and float arithmetic (float64 modelled as the reals)
+
+//@ import resource "k8s.io/apimachinery/pkg/api/resource"
+//@ spec milli(q qty) int
+//@ spec qval(q qty) int
+//@ assume func k8s.io/apimachinery/pkg/api/resource.NewMilliQuantity(v, format) (q)
+//@   ensures q != nil && fresh(q) && milli(deref(q)) == v
+//@ assume func k8s.io/apimachinery/pkg/api/resource.NewQuantity(v, format) (q)
+//@   ensures q != nil && fresh(q) && qval(deref(q)) == v && milli(deref(q)) == 1000 * v
+//@ assume func (*k8s.io/apimachinery/pkg/api/resource.Quantity).MilliValue(q) (r)
+//@   pure
+//@   requires q != nil
+//@   ensures r == milli(deref(q))
+//@ assume func (*k8s.io/apimachinery/pkg/api/resource.Quantity).Value(q) (r)
+//@   pure
+//@   requires q != nil
+//@   ensures r == qval(deref(q))
+//@ assume func (*k8s.io/apimachinery/pkg/api/resource.Quantity).IsZero(q) (r)
+//@   pure
+//@   requires q != nil
+//@   ensures r <==> milli(deref(q)) == 0
+//@ assume func math.Max(a, b) (r)
+//@   pure
+//@   ensures r == max(a, b)
+//@ assume func math.Ceil(x) (r)
+//@   pure
+//@   ensures r == ceil(x)
+//@ const MAXF = 179769313486231570814527423731704356798070567525844996598917476803157260780028538760589558632766878171540458953514382464234321326889464182768467546703537516986049910576551282076245490090389328944075868508455133942304583236903222948165808559332123348274797826204144723168738177180919299881250404026184124858368.0
+
+//@ func allEqual(matchValue, resourceValues) (r)
+//@   ensures r <==> (forall i :: 0 <= i && i < len(resourceValues) ==> resourceValues[i] == matchValue)
+//@ loop #0
+//@   invariant forall j :: 0 <= j && j < #i ==> resourceValues[j] == matchValue
+
+// calcPercentUsage (C13, C05): 100 * request / capacity per resource, with the scale-from-zero sentinel.
+//@ spec allZero(a qty, b qty, c qty, d qty, n int) bool = milli(a) == 0 && milli(b) == 0 && milli(c) == 0 && milli(d) == 0 && n == 0
+//@ func calcPercentUsage(cpuRequest, memRequest, cpuCapacity, memCapacity, numberOfUntaintedNodes) (cpu, mem, err)
+//@   ensures [C05,C06,C13] allZero(cpuRequest, memRequest, cpuCapacity, memCapacity, numberOfUntaintedNodes) ==> cpu == 0.0 && mem == 0.0 && err == nil
+//@   ensures [C05,C06,C13] !allZero(cpuRequest, memRequest, cpuCapacity, memCapacity, numberOfUntaintedNodes) && (milli(cpuCapacity) == 0 || milli(memCapacity) == 0) && numberOfUntaintedNodes == 0 ==> cpu == MAXF && mem == MAXF && err == nil
+//@   ensures [C05,C06,C13] !allZero(cpuRequest, memRequest, cpuCapacity, memCapacity, numberOfUntaintedNodes) && (milli(cpuCapacity) == 0 || milli(memCapacity) == 0) && numberOfUntaintedNodes != 0 ==> err != nil
+//@   ensures [C05,C06,C13] milli(cpuCapacity) != 0 && milli(memCapacity) != 0 ==> err == nil && cpu == real(milli(cpuRequest)) / real(milli(cpuCapacity)) * 100.0 && mem == real(milli(memRequest)) / real(milli(memCapacity)) * 100.0
+
+// calcScaleUpDelta (C05): the percent-decrease formula with ceil; from zero nodes the cached node size, or 1.
+//@ func calcScaleUpDelta(allNodes, cpuPercent, memPercent, cpuRequest, memRequest, nodeGroup) (delta, err)
+//@   requires nodeGroup != nil
+//@   ensures [C05] (cpuPercent == MAXF || memPercent == MAXF) && (milli(nodeGroup.cpuCapacity) == 0 || milli(nodeGroup.memCapacity) == 0) ==> delta == 1 && err == nil
+//@   ensures [C05] (cpuPercent == MAXF || memPercent == MAXF) && milli(nodeGroup.cpuCapacity) != 0 && milli(nodeGroup.memCapacity) != 0 ==> delta == trunc(max(ceil(real(milli(cpuRequest)) / real(milli(nodeGroup.cpuCapacity)) / real(nodeGroup.Opts.ScaleUpThresholdPercent) * 100.0), ceil(real(milli(memRequest)) / real(milli(nodeGroup.memCapacity)) / real(nodeGroup.Opts.ScaleUpThresholdPercent) * 100.0)))
+//@   ensures [C05] cpuPercent != MAXF && memPercent != MAXF ==> delta == trunc(max(ceil(real(len(allNodes)) * ((cpuPercent - real(nodeGroup.Opts.ScaleUpThresholdPercent)) / real(nodeGroup.Opts.ScaleUpThresholdPercent))), ceil(real(len(allNodes)) * ((memPercent - real(nodeGroup.Opts.ScaleUpThresholdPercent)) / real(nodeGroup.Opts.ScaleUpThresholdPercent)))))
+//@   ensures [C05] err != nil <==> delta < 0
+
+// C05 as arithmetic (over the reals): with n >= 1 equal nodes, threshold T >= 1, utilisations pc, pm
+// (percent of current capacity) and d as calcScaleUpDelta computes it, n + d nodes bring both
+// utilisations to at most T, and n + d - 1 nodes do not (so d is the smallest sufficient increase).
+//@ lemma C05_normal [C05] (n int, T int, pc real, pm real, d int)
+//@   hyp n >= 1 && T >= 1 && pc >= 0.0 && pm >= 0.0 && max(pc, pm) > real(T)
+//@   hyp d == trunc(max(ceil(real(n) * ((pc - real(T)) / real(T))), ceil(real(n) * ((pm - real(T)) / real(T)))))
+//@   concl d >= 1
+//@   concl pc * real(n) <= real(T) * real(n + d) && pm * real(n) <= real(T) * real(n + d)
+//@   concl !(pc * real(n) <= real(T) * real(n + d - 1) && pm * real(n) <= real(T) * real(n + d - 1))
+// From zero nodes with cached node size (cc, cm milli-units per node) and requests (rc, rm):
+//@ lemma C05_fromzero_a [C05] (x real, y real, d int)
+//@   hyp x >= 0.0 && y >= 0.0 && d == trunc(max(ceil(x), ceil(y)))
+//@   concl x <= real(d) && y <= real(d) && (d >= 1 ==> !(x <= real(d - 1) && y <= real(d - 1)))
+// x = r/c/T*100 compares with an integer k exactly as 100 r compares with T k c
+//@ lemma C05_fromzero_b [C05] (T int, r int, c int, k int, x real)
+//@   hyp T >= 1 && r >= 0 && c >= 1 && x == real(r) / real(c) / real(T) * 100.0
+//@   concl (x <= real(k)) <==> (100.0 * real(r) <= real(T) * real(k) * real(c))
+
+// ---------------------------------------------------------------- controller.go: scan helpers
+
+//@ func (*Controller).scaleOnMaxNodeAge(c, nodeGroup, untaintedNodes, taintedNodes) (r)
+//@   requires nodeGroup != nil && durCacheOK(optsOf(nodeGroup)) && nodesOK(untaintedNodes)
+//@   modifies clock, nodeGroup.Opts.maxNodeAgeDuration
+//@   ensures clock >= old(clock) && durCacheOK(optsOf(nodeGroup))
+//@   ensures r ==> len(untaintedNodes) == nodeGroup.Opts.MinNodes && len(untaintedNodes) > 0 && len(taintedNodes) == 0 && durOf(nodeGroup.Opts.MaxNodeAge) > 0
+//@ loop #0
+//@   modifies nodeGroup.Opts.maxNodeAgeDuration
+//@   invariant clock >= old(clock) && durCacheOK(optsOf(nodeGroup))
+
+//@ func (*Controller).calculateNewNodeMetrics(c, nodegroup, nodeGroup)
+//@   requires c != nil && nodeGroup != nil && c.cloudProvider != nil && k8s.infoMapOK(nodeGroup.NodeInfoMap) && k8s.infoHasNode(nodeGroup.NodeInfoMap)
+
+// ---------------------------------------------------------------- scaleNodeGroup: one scan of one group
+
+// Inv(g): what every scan relies on (established by NewController, preserved by every scan).
+//@ spec groupInv(g *NodeGroupState) bool = g != nil && g.NodeGroupLister != nil && g.NodeGroupLister.Pods != nil && g.NodeGroupLister.Nodes != nil && durCacheOK(optsOf(g)) && g.scaleUpLock.minimumLockDuration == durOf(g.Opts.ScaleUpCoolDownPeriod)
+// lockedAt(g, c): the cool-down of the last accepted scale-up has not elapsed at clock reading c
+//@ spec lockedAt(g *NodeGroupState, c int) bool = sat64(c - g.scaleUpLock.lockTime) < g.scaleUpLock.minimumLockDuration
+
+//@ func (*Controller).scaleNodeGroup(c, nodegroup, nodeGroup) (delta, err)
+//@   requires c != nil && c.Client != nil && c.cloudProvider != nil && groupInv(nodeGroup)
+//@   modifies Jlen, Jkind, Jname, Jnode, Jok, Jesc, Jnum, clock, nTaintOK, nUntaintOK, getSeen, LNb, LNo, LNl, LPb, LPo, LPl
+//@   modifies nodeGroup.taintTracker, elems(nodeGroup.taintTracker), nodeGroup.NodeInfoMap, nodeGroup.cpuCapacity, nodeGroup.memCapacity, nodeGroup.lastScaleOut
+//@   modifies nodeGroup.scaleUpLock.isLocked, nodeGroup.scaleUpLock.requestedNodes, nodeGroup.scaleUpLock.lockTime
+//@   modifies nodeGroup.Opts.softDeleteGracePeriodDuration, nodeGroup.Opts.hardDeleteGracePeriodDuration, nodeGroup.Opts.maxNodeAgeDuration
+//@   ensures Jlen >= old(Jlen) && jprefix(old(Jlen)) && clock >= old(clock) && groupInv(nodeGroup)
+//@   ensures [C11] dry(c, nodeGroup) ==> Jlen == old(Jlen)
+//@   ensures [C02] lockedAt(nodeGroup, clock) && old(nodeGroup.scaleUpLock.lockTime) == nodeGroup.scaleUpLock.lockTime ==> Jlen == old(Jlen)
